@@ -25,8 +25,10 @@ Result: **{n} changes, {n - len(init_miss)} caught by the checks as they were, {
 Each miss was analysed: where a structural necessary condition exists that is visible in
 the code and does not fire on behaviour-preserving edits, a rule was added (listed in
 5.1) and the change now fires; **{len(still)} remain(s) a documented miss** because the broken
-clause is arithmetic (no rule short of executing the code separates them from valid
-optimisations):
+clause is arithmetic, or needs a fact outside the structure the rules look at (a panic
+under a held lock, a `break` binding to the wrong statement in the public package, a
+mutating call on a decoded value in an unregistered helper, a registry invariant — each
+explained in 5.1); no rule short of executing the code separates them from valid edits:
 
 ''')
 for p, name, m in still:
